@@ -76,6 +76,11 @@ Failing(ev) ==
   (IF ev.is_empty # (d = {}) THEN {<<"C05", "is_empty">>} ELSE {}) \cup
   (IF ev.is_any # (d = Probes) THEN {<<"C05", "is_any">>} ELSE {}) \cup
   (IF \E j \in prev : (j \in eqs) # (DenOf(j) = d) THEN {<<"C05", "eq_exact">>} ELSE {}) \cup
+  \* the same three observers against the EXACT candidate table (packaging's verdict on the leaves, combined by
+  \* Boolean algebra): sound in this direction only, the candidates being a finite sample of the final releases
+  (IF ev.is_empty /\ ~AllFalse(et) THEN {<<"C05", "is_empty_but_admits">>} ELSE {}) \cup
+  (IF ev.is_any /\ ~AllTrue(et) THEN {<<"C05", "is_any_but_rejects">>} ELSE {}) \cup
+  (IF \E j \in eqs : j \in prev /\ regs[j].tbl # et THEN {<<"C05", "eq_but_different_versions">>} ELSE {}) \cup
   (IF eqs # eqr THEN {<<"C13", "eq_symmetric">>} ELSE {}) \cup
   (IF ~ev.eq_self THEN {<<"C13", "eq_reflexive">>} ELSE {}) \cup
   (IF ~(eqs \subseteq hs) THEN {<<"C13", "eq_implies_hash">>} ELSE {}) \cup
